@@ -26,7 +26,7 @@ ALL_TARGETS = ("node-shutdown", "node-startup")
 
 TAP_INTERFERENCE = ("node-application-remove", "node-shutdown", "node-application-close", "router-acl-add-rule", "firewall-acl-add-rule",
                     "host-nic-disable", "node-service-stop", "node-file-delete", "node-account-change-password",
-                    "node-session-remote-logoff", "node-application-install")
+                    "node-session-remote-logoff", "node-application-install", "node-reset", "node-startup")
 
 
 class Adapter(EE.EnvAdapter):
@@ -98,6 +98,9 @@ def scenarios(tier):
             continue
         S.append((name, HE.SHIPPED[name], "dev", dict(H=2 * (2 * n_ep + 2), k=1 if tier == "thorough" and n_ep < 20 else 0,
                                                      reset_seed=None, multi_reset=True)))
+    if tier != "thorough":
+        # a power cycle of the threat actor's host at any step of the first 44: refused red actions whose answers the actor parses
+        S.append(("uc7-reset", HE.SHIPPED["uc7"], "dev", dict(H=44, k=1, reset_seed=None, core=True, core_names=("node-reset",))))
     if tier == "thorough":
         # a whole threat-actor kill chain with one blue interference at any step (the attack's late stages run code that
         # nothing else reaches)
@@ -151,6 +154,8 @@ def _cfg_for(name, p=None):
         return HE.gen_scenario(p["variant"])
     if name.endswith("-long"):
         name = name[:-5]
+    if name.endswith("-reset"):
+        name = name[:-6]
     if name.endswith("-fs2"):
         name = name[:-4]
     for v in HE.GEN:
